@@ -167,7 +167,12 @@ def do_mutator(ad: Adapter, m, op, k):
         loss = (y ** 2).mean() + 1e-4 * sum(m.get_cost(n) for n in ad.specs)
         opt.zero_grad()
         loss.backward()
-        opt.step()
+        # bounded update: no history of steps may diverge (NaN parameters compare unequal to
+        # themselves and would look like an observer effect)
+        gs = [p.grad for p in params if p.grad is not None]
+        if gs and all(bool(torch.isfinite(g).all()) for g in gs):
+            torch.nn.utils.clip_grad_norm_(params, 1.0)
+            opt.step()
         # a fresh forward re-samples the coefficients: the graph of the previous sample was freed
         torch.manual_seed(2000 + k)
         ng.call(m, x)
